@@ -165,6 +165,112 @@ def translate_dec_init(tree):
             % (preset["names"], preset["varnames"], preset["cellvars"], preset["constants"], cond))
 
 
+def translate_dec_epilogue(tree):
+    """the end of bytes_to_blocks: the unreferenced entries of the four tables, each under its constructor, in the order written"""
+    f = next((n for n in tree.body if isinstance(n, ast.FunctionDef) and n.name == "bytes_to_blocks"), None)
+    if f is None:
+        raise Decline("bytes_to_blocks")
+    body = strip(f.body)
+    ret = body[-1]
+    if not (isinstance(ret, ast.Return) and isinstance(ret.value, ast.Tuple) and len(ret.value.elts) == 2 and isinstance(ret.value.elts[1], ast.Name)
+            and same(ret.value.elts[0], "tuple(tuple(instruction for instruction in block) for block in blocks)")):
+        raise Decline("return of bytes_to_blocks")
+    var = ret.value.elts[1].id
+    st = body[-2]
+    if not (isinstance(st, ast.Assign) and len(st.targets) == 1 and isinstance(st.targets[0], ast.Name) and st.targets[0].id == var):
+        raise Decline("additional args of bytes_to_blocks")
+    parts = []
+    def flat(e):
+        if isinstance(e, ast.BinOp) and isinstance(e.op, ast.Add):
+            flat(e.left)
+            flat(e.right)
+        else:
+            parts.append(e)
+    flat(st.value)
+    CT = {"Name": ("AName", "names", "str_eqb"), "Varname": ("AVarname", "varnames", "str_eqb"), "Cellvar": ("ACellvar", "cellvars", "str_eqb"),
+          "Constant": ("AConst", "consts", "keq")}
+    binds, lists = [], []
+    for k, e in enumerate(parts):
+        if not (isinstance(e, ast.Call) and isinstance(e.func, ast.Name) and e.func.id == "tuple" and len(e.args) == 1
+                and isinstance(e.args[0], ast.GeneratorExp) and len(e.args[0].generators) == 1 and not e.args[0].generators[0].ifs):
+            raise Decline("part of the additional args")
+        g = e.args[0]
+        v = g.generators[0].target
+        it = g.generators[0].iter
+        if not (isinstance(v, ast.Name) and isinstance(g.elt, ast.Call) and isinstance(g.elt.func, ast.Name) and g.elt.func.id in CT
+                and len(g.elt.args) == 1 and isinstance(g.elt.args[0], ast.Starred) and isinstance(g.elt.args[0].value, ast.Name)
+                and g.elt.args[0].value.id == v.id and not g.elt.keywords
+                and isinstance(it, ast.Call) and isinstance(it.func, ast.Attribute) and it.func.attr == "additional_args" and not it.args
+                and isinstance(it.func.value, ast.Name) and it.func.value.id.startswith("found_")):
+            raise Decline("generator of the additional args")
+        ctor, tbl, eq = CT[g.elt.func.id]
+        src_tbl = it.func.value.id[len("found_"):]
+        src_tbl = {"constants": "consts"}.get(src_tbl, src_tbl)
+        if src_tbl != tbl:
+            raise Decline("constructor %s over the table %s" % (g.elt.func.id, src_tbl))
+        binds.append("do a%d <- PCD.Gen.SrcTables.additional_args %s (d_%s st2);" % (k, eq, tbl))
+        lists.append("map (fun p => %s (fst p) (snd p)) a%d" % (ctor, k))
+    return ("  Definition additional_of (st2 : decstate C) : res (list (arg_ C)) :=\n    %s\n    OK (%s).\n"
+            % (" ".join(binds), " ++ ".join(lists) if lists else "[]"))
+
+
+def translate_first_pass(tree):
+    """blocks_to_bytes between its prologue and the relaxation loop: every operand sent through from_arg in order (the values kept
+    in the `args` dict, read here as the list of values in iteration order), the additional args sent through from_arg for their
+    effect on the tables, and the free-variable operands shifted by the number of cell variables"""
+    f = next((n for n in tree.body if isinstance(n, ast.FunctionDef) and n.name == "blocks_to_bytes"), None)
+    if f is None:
+        raise Decline("blocks_to_bytes")
+    body = strip(f.body)
+    loops = []
+    for s in body:
+        if isinstance(s, ast.While):
+            break
+        if isinstance(s, ast.For):
+            loops.append(s)
+    if len(loops) != 3:
+        raise Decline("loops before the relaxation: %d" % len(loops))
+    l1, l2, l3 = loops
+    FROM_ARG = "from_arg(%s, block_type, freevars, names, varnames, cellvars, constants)"
+    def nested(lp):
+        if not (same(lp.iter, "enumerate(blocks)") and isinstance(lp.target, ast.Tuple) and len(lp.target.elts) == 2 and not lp.orelse
+                and all(isinstance(x, ast.Name) for x in lp.target.elts)):
+            raise Decline("loop over the blocks")
+        bi, bv = lp.target.elts[0].id, lp.target.elts[1].id
+        inner = strip(lp.body)
+        if not (len(inner) == 1 and isinstance(inner[0], ast.For) and not inner[0].orelse and same(inner[0].iter, "enumerate(%s)" % bv)
+                and isinstance(inner[0].target, ast.Tuple) and len(inner[0].target.elts) == 2 and all(isinstance(x, ast.Name) for x in inner[0].target.elts)):
+            raise Decline("loop over the instructions")
+        return bi, inner[0].target.elts[0].id, inner[0].target.elts[1].id, strip(inner[0].body)
+    bi, ii, iv, b1 = nested(l1)
+    if not (len(b1) == 1 and same(b1[0], ("args[%s, %s] = " % (bi, ii)) + FROM_ARG % (iv + ".arg"), "exec")):
+        raise Decline("first loop of blocks_to_bytes")
+    if not (isinstance(l2.target, ast.Name) and same(l2.iter, "additional_args") and not l2.orelse and len(strip(l2.body)) == 1
+            and same(strip(l2.body)[0], FROM_ARG % l2.target.id, "exec")):
+        raise Decline("loop over the additional args")
+    bi, ii, iv, b3 = nested(l3)
+    if len(b3) == 2 and same(b3[0], "arg = %s.arg" % iv, "exec"):
+        tested = "arg"
+        b3 = b3[1:]
+    else:
+        tested = iv + ".arg"
+    if not (len(b3) == 1 and isinstance(b3[0], ast.If) and not b3[0].orelse and same(b3[0].test, "isinstance(%s, Freevar)" % tested)
+            and len(strip(b3[0].body)) == 1):
+        raise Decline("free-variable loop")
+    upd = strip(b3[0].body)[0]
+    if same(upd, "args[%s, %s] += len(cellvars)" % (bi, ii), "exec"):
+        shift = "snd iv + zlen (fa_items (e_cellvars st2))"
+    else:
+        raise Decline("shift of the free variables")
+    return ("  Definition first_pass (blocks : list (list (instr_ C))) (additional_args : list (arg_ C)) (freevars : list str) (block_type : option function)\n"
+            "      (st0 : encstate C) : res (list Z * encstate C) :=\n"
+            "    do r <- foldM (fun acc block => foldM (fun (acc : list Z * encstate C) instruction =>\n"
+            "              do v <- PCD.Gen.SrcFromArg.from_arg keq is_str none_c (i_arg instruction) block_type freevars (snd acc); OK (fst acc ++ [fst v], snd v)) block acc)\n"
+            "            blocks ([], st0);\n"
+            "    do st2 <- foldM (fun st arg => do v <- PCD.Gen.SrcFromArg.from_arg keq is_str none_c arg block_type freevars st; OK (snd v)) additional_args (snd r);\n"
+            "    OK (map (fun iv : instr_ C * Z => match i_arg (fst iv) with AFreevar _ => %s | _ => snd iv end) (combine (concat blocks) (fst r)), st2).\n" % shift)
+
+
 def translate_b2c(tree):
     f = next((n for n in tree.body if isinstance(n, ast.FunctionDef) and n.name == "blocks_to_constants"), None)
     if f is None or f.decorator_list or [a.arg for a in f.args.args] != ["blocks", "additional_args", "block_type"]:
@@ -202,7 +308,7 @@ def translate_b2c(tree):
             "  Definition blocks_to_constants (blocks : list (list (instr_ C))) (additional_args : list (arg_ C)) (block_type : option function) : res (list C) :=\n"
             "    let step := fun (a : arg_ C) (st : encstate C) => match a with AConst _ _ => do r <- PCD.Gen.SrcFromArg.from_arg keq is_str none_c a block_type [] st; OK (snd r) | _ => OK st end in\n"
             "    do constants <- %s;\n    let st := mkEnc (@fromargs_empty str) (@fromargs_empty str) (@fromargs_empty str) constants in\n    %s.\n" % (doc, text)
-            + translate_enc_init(tree) + translate_dec_init(tree) + "End B2C.\n")
+            + translate_enc_init(tree) + translate_dec_init(tree) + translate_dec_epilogue(tree) + translate_first_pass(tree) + "End B2C.\n")
 
 
 def translate_iter(tree):
